@@ -122,12 +122,22 @@ func c08(c *wk.Ctx) {
 			idx++
 		}
 	}
-	// 16 MiB once (thorough)
+	// around 16 MiB: 2^24 BYTES is nothing special for either format (Abridged counts 4-byte words in its three
+	// length bytes and carries up to (2^24-1)*4 bytes, Intermediate has a 4-byte length), which is exactly why a
+	// limit placed there is wrong
+	big := []int{1<<24 - 4, 1 << 24, 1<<24 + 4}
 	if !c.Quick() {
-		for mi := range c08Modes {
+		big = append(big, 1<<25, 1<<26-4)
+	}
+	for mi, md := range c08Modes {
+		for _, n := range big {
 			if c.Mine(idx) {
-				c.Begin(idx, "write 16MiB-4")
-				c08write(c, idx, mi, [][]byte{make([]byte, 1<<24-4)})
+				c.Begin(idx, fmt.Sprintf("write %s len=%d", md.name, n))
+				b := make([]byte, n)
+				for i := 0; i < n; i += 4093 {
+					b[i] = byte(i)
+				}
+				c08write(c, idx, mi, [][]byte{b, {1, 2, 3, 4}})
 			}
 			idx++
 		}
